@@ -266,7 +266,7 @@ impl<'tcx> Cx<'tcx> {
             _ => {
                 let cv = ConstValue::Indirect { alloc_id: aid, offset: rustc_abi::Size::from_bytes(poff) };
                 let nested = self.const_value_d(cv, pointee, depth + 1);
-                if nested.starts_with("\"v\"") || nested.starts_with("\"adt2\"") || nested.starts_with("\"adt\"") {
+                if nested.starts_with("\"v\"") || nested.starts_with("\"adt2\"") || nested.starts_with("\"adt\"") || nested.starts_with("\"bytes\"") || nested.starts_with("\"list\"") {
                     Some(format!("\"ty\":{},\"ref\":{{{}}}", jstr(&ty_str(ref_ty)), nested))
                 } else {
                     None
@@ -292,6 +292,20 @@ impl<'tcx> Cx<'tcx> {
                         let fs: Vec<String> = d.fields.iter().map(|(fcv, fty)| format!("{{\"ty\":{},{}}}", jstr(&ty_str(*fty)), self.const_value_d(*fcv, *fty, depth + 1))).collect();
                         return format!("\"adt2\":{{\"path\":{},\"vi\":{},\"vname\":{},\"fields\":{}}}", jstr(&path_of(tcx, adt.did())), vi, jstr(&vname), jlist(&fs));
                     }
+                }
+            }
+        }
+        // tuples, and arrays whose elements are not plain integers: element-wise through the compiler
+        if depth < 4 {
+            let structured = match t.kind() {
+                ty::Tuple(fs) => !fs.is_empty(),
+                ty::Array(e, _) => prim_size(*e).is_none(),
+                _ => false,
+            };
+            if structured && !matches!(cv, ConstValue::ZeroSized) {
+                if let Some(d) = tcx.try_destructure_mir_constant_for_user_output(cv, t) {
+                    let fs: Vec<String> = d.fields.iter().map(|(fcv, fty)| format!("{{\"ty\":{},{}}}", jstr(&ty_str(*fty)), self.const_value_d(*fcv, *fty, depth + 1))).collect();
+                    return format!("\"list\":{}", jlist(&fs));
                 }
             }
         }
@@ -327,14 +341,39 @@ impl<'tcx> Cx<'tcx> {
                                     }
                                 }
                             }
+                            // pointee is an array of references (`&[&str; N]`, `&[&[u8]; N]`, `&[&T; N]`): follow each element
+                            if depth < 4 {
+                                if let ty::Array(elem_ty, n) = pt.kind() {
+                                    if let (Some(inner_t), Some(n)) = (elem_ty.builtin_deref(true), n.try_to_target_usize(tcx)) {
+                                        let esz = match inner_t.kind() {
+                                            ty::Str | ty::Slice(_) => 16usize,
+                                            _ => 8usize,
+                                        };
+                                        let mut items: Vec<String> = Vec::new();
+                                        let mut ok = true;
+                                        for i in 0..(n as usize) {
+                                            match self.read_ref_in_alloc(inner, off.bytes() as usize + i * esz, *elem_ty, inner_t, depth) {
+                                                Some(sx) => items.push(format!("{{{}}}", sx)),
+                                                None => {
+                                                    ok = false;
+                                                    break;
+                                                }
+                                            }
+                                        }
+                                        if ok {
+                                            return format!("\"refarr\":{}", jlist(&items));
+                                        }
+                                    }
+                                }
+                            }
                             if let Some(sc) = self.struct_const(inner, off.bytes() as usize, pt) {
                                 return sc;
                             }
                             // generic pointee: integers and (nested) ADTs, decoded through the allocation
-                            if depth < 4 && (prim_size(pt).is_some() || matches!(pt.kind(), ty::Adt(..))) && !matches!(pt.kind(), ty::Adt(a, _) if a.is_box()) {
+                            if depth < 4 && (prim_size(pt).is_some() || matches!(pt.kind(), ty::Adt(..) | ty::Tuple(..) | ty::Array(..))) && !matches!(pt.kind(), ty::Adt(a, _) if a.is_box()) && !matches!(pt.kind(), ty::Array(e, _) if prim_size(*e).is_some()) {
                                 let inner_cv = ConstValue::Indirect { alloc_id, offset: off };
                                 let nested = self.const_value_d(inner_cv, pt, depth + 1);
-                                if nested.starts_with("\"v\"") || nested.starts_with("\"adt2\"") {
+                                if nested.starts_with("\"v\"") || nested.starts_with("\"adt2\"") || nested.starts_with("\"list\"") {
                                     return format!("\"ref\":{{{}}}", nested);
                                 }
                             }
